@@ -16,7 +16,8 @@ RULE_TEXT = ("C04-F format tables of every Response impl, read from path summari
              "'\"\"' between consecutive segments, then '\"'. C04-X execute appends '\\n' and flush only after a successful "
              "query, in that order, `?`-propagated. C04-A (witness interfaces) each generated arm writes the handler's Ok "
              "value once and propagates the result. C04-W writer methods are called only from Response impls, their helper, "
-             "execute and generated arms; write_char only gets ASCII literals; shipped Write impls append or fail.")
+             "execute and generated arms; write_char only gets ASCII literals; shipped Write impls append or fail."
+             " C04-K: the buffer discipline of process (rules K1-K7 of C07) - a unit is handed to run once.")
 
 W = "microscpi::response::Write::"
 WR = "microscpi::response::Response::write_response"
@@ -83,6 +84,10 @@ def run(ck):
         rid = c10.identify_res_buf(pex)
         if ck.judge(rid is not None, "C04-P", "process:res_buf", "response buffer identified", "cannot identify the response buffer"):
             c10.response_typestate(ck, pex, rid, "C04-P")
+    # exactly one response per query: a unit is handed to run once (the offsets of process never move back over
+    # executed units) - the buffer discipline of process, as decided for C07
+    import c07
+    c07.rule_K(ck, lib, "C04-K")
     if ck.tier == "thorough" and not ck.cfg_rerun:
         std = ctx.lib(ck, "std")
         if std is not None:
